@@ -167,8 +167,12 @@ CLAIMED = {
     "C08": ("Theorems: float_cmp is a total preorder with trichotomy on NaN-free floats; integer order/equality exact for every "
             "representation. Correspondence: all pairs of a 90-atom pool (every number representation and boundary) and random trees "
             "through comparison, object lookup/merge/equality, array subtraction, sort/unique/group_by/index; oracle: order axioms and "
-            "key interchangeability on the implementation. Partial: the lifting to nested values with objects is checked by "
-            "correspondence and oracle, not yet proved.", "7.8", "Coq proof + model/implementation correspondence + order-axiom oracle"),
+            "key interchangeability on the implementation. The order of nested values (Proofs/ValOrder.v): whenever the order of numbers "
+            "is a total preorder on a class of numbers, val_cmp is a total preorder (reflexive, antisymmetric, transitive, trichotomous) "
+            "on all values whose numbers lie in that class - arrays lexicographically, objects by sorted keys then values - instantiated "
+            "for integers of any size, for NaN-free floats, and for integers up to 4096 mixed with NaN-free floats (exact, strictly "
+            "monotone conversion checked per integer in the kernel). Partial: integers between 4096 and 2^53 next to floats, and the "
+            "interchangeability of equal keys beyond numbers, rest on the correspondence and the oracles.", "7.8", "Coq proof + model/implementation correspondence + order-axiom oracle"),
     "C09": ("Theorems: + - * % and negation of integers are exact for all four representation combinations; integer-ness rule; "
             "float otherwise (SpecFloat); representation independence of index/slice positions and comparison. Correspondence: "
             "boundary-straddling operand pairs, all number atoms, non-numeric operands, 29 integer consumers under both "
